@@ -69,7 +69,14 @@ def allocChoose (c : Sched) (choice : Option Nat) : Sched × SRes × Option Nat 
       let v' := { v with assigned := v.assigned ++ [j], unclaimed := v.unclaimed ++ [j] }
       (({ c with jobCount := j + 1 }).setSrv v', .ok, some j)
 
-/-- `do_assign_job` succeeded: record the job -/
+/-- third step of `handle_alloc_job` after the fix of F-C18-a (under both locks): record the job only if the
+    chosen server still lists it and the id is fresh; otherwise the allocation fails and nothing changes -/
+def allocRecordFixed (c : Sched) (j s : Nat) (st : JState) : Sched × SRes :=
+  match c.findSrv s with
+  | some v => if v.assigned.contains j && !c.jobs.any (·.id == j) then ({ c with jobs := c.jobs ++ [⟨j, s, st⟩] }, .ok) else (c, .err)
+  | none => (c, .err)
+
+/-- the third step as it was on the pinned tree (kept for the witness of F-C18-a) -/
 def allocRecord (c : Sched) (j s : Nat) (st : JState) : Sched × SRes :=
   if c.jobs.any (·.id == j) then ({ c with poisoned := true }, .panic)
   else ({ c with jobs := c.jobs ++ [⟨j, s, st⟩] }, .ok)
